@@ -3,10 +3,11 @@
 // Engine `httpw` (C01, C14): the waiter / watch logic of the public HTTP handler (handler/http/server.go) driven through
 // the REAL DrandHandler (its instrumented mux, ServeHTTP) with a scripted fake client.Client.
 //
-// `verifh httpw` is a supervisor: every script (a `new [tmode]` line starts one) runs in a child process
-// (`verifh httpw-child`, re-exec of this binary), because the defects this engine looks for kill the process
-// (a panic in the Watch goroutine, `fatal error: concurrent map iteration and map write`). A dead child is the
-// outcome `crash:<first line of the Go runtime's report>` for the op that killed it and `dead` for the rest of the script.
+// `verifh httpw` is a supervisor: the scripts (a `new [tmode]` line starts one: fresh handler, client, clock) run in a
+// child process (`verifh httpw-child`, re-exec of this binary), because the defects this engine looks for kill the
+// process (a panic in the Watch goroutine, `fatal error: concurrent map iteration and map write`). A dead child is the
+// outcome `crash:<first line of the Go runtime's report>` for the op that killed it and `dead` for the rest of that
+// script; the next `new` starts a new child.
 //
 // Ops (one result line each; text after " #" is commentary and not compared with the model):
 //   new [tmode]            fresh handler, fake client, clock: period 3600 s, "now" in the middle of round 10
@@ -46,6 +47,7 @@ import (
 	"net/http/httptest"
 	"os"
 	"os/exec"
+	"runtime"
 	"sort"
 	"strconv"
 	"strings"
@@ -91,9 +93,9 @@ func (b *hwBuf) Write(p []byte) (int, error) {
 }
 func (b *hwBuf) String() string { b.mu.Lock(); defer b.mu.Unlock(); return b.b.String() }
 
-func hwSpawn(mode string) *hwProc {
+func hwSpawn() *hwProc {
 	p := &hwProc{errb: &hwBuf{}, lines: make(chan string, 16)}
-	p.cmd = exec.Command(os.Args[0], "httpw-child", mode)
+	p.cmd = exec.Command(os.Args[0], "httpw-child")
 	p.cmd.Env = os.Environ()
 	p.cmd.Stderr = p.errb
 	var err error
@@ -172,20 +174,15 @@ func httpwParent(_ []string, in *bufio.Scanner, out *bufio.Writer) {
 		}
 		f := fields(line)
 		var res string
-		if f[0] == "new" {
+		if f[0] == "new" && (p == nil || p.dead) {
+			// a fresh child only when there is none or the last one died; otherwise the child builds a fresh handler itself
 			p.kill()
-			mode := "std"
-			if len(f) > 1 && f[1] == "tmode" {
-				mode = "tmode"
-			}
-			p = hwSpawn(mode)
-			res = "ok"
-		} else {
-			if p == nil {
-				p = hwSpawn("std")
-			}
-			res = p.ask(line, 30*time.Second)
+			p = hwSpawn()
 		}
+		if p == nil {
+			p = hwSpawn()
+		}
+		res = p.ask(line, 30*time.Second)
 		fmt.Fprintln(out, res)
 		out.Flush()
 	}
@@ -306,6 +303,7 @@ type hwEnv struct {
 	holding bool
 	tmode   bool
 	t0      int64
+	cancel  context.CancelFunc
 }
 
 const hwWatchdog = 5 * time.Second
@@ -329,13 +327,30 @@ func (e *hwEnv) infoFor(cur uint64, period time.Duration) *chain2.Info {
 	return &chain2.Info{Period: period, GenesisTime: g, ID: "default", Scheme: "pedersen-bls-chained"}
 }
 
+func (e *hwEnv) stop() {
+	for _, r := range e.reqs {
+		r.cancel()
+	}
+	if e.gate != nil {
+		g := e.gate
+		go func() {
+			select {
+			case <-g:
+			case <-time.After(time.Second):
+			}
+		}()
+	}
+	e.cancel()
+}
+
 func newHwEnv(tmode bool) *hwEnv {
-	ctx := log.ToContext(context.Background(), quietLogger())
+	bg, cancel := context.WithCancel(context.Background())
+	ctx := log.ToContext(bg, quietLogger())
 	h, err := dhttp.New(ctx, "verif")
 	if err != nil {
 		panic(err)
 	}
-	e := &hwEnv{h: h, reqs: map[string]*hwReq{}, tmode: tmode, t0: time.Now().Unix()}
+	e := &hwEnv{h: h, reqs: map[string]*hwReq{}, tmode: tmode, t0: time.Now().Unix(), cancel: cancel}
 	e.fc = &hwClient{over: map[uint64]string{}, head: 10}
 	e.fc.info = e.infoFor(10, hwPeriod*time.Second)
 	e.bh = h.RegisterNewBeaconHandler(e.fc, "default")
@@ -675,6 +690,12 @@ func (e *hwEnv) op(f []string) string {
 		}
 		e.gate = nil
 		e.holding = false
+		// give the watcher the time to finish its loop even if it notifies outside the lock (then there is no
+		// observable signal for "done"): it is runnable now
+		for i := 0; i < 8; i++ {
+			runtime.Gosched()
+		}
+		time.Sleep(5 * time.Millisecond)
 		ok := hwWait(func() bool { _, _, _, free := e.bh.VerifTryState(); return free }, hwWatchdog)
 		if !ok || !e.settleReleased() {
 			return "stuck"
@@ -751,7 +772,7 @@ func (e *hwEnv) op(f []string) string {
 	case "settle":
 		lat, pend, _, ok := e.bh.VerifTryState()
 		pl, il := e.bh.VerifLocks()
-		if e.gate != nil && ok {
+		if e.gate != nil && ok && !e.holding {
 			pend-- // the engine's own gate channel
 		}
 		ps, ls := strconv.Itoa(pend), strconv.FormatUint(lat, 10)
@@ -921,11 +942,20 @@ func (e *hwEnv) chainsRace(f []string) string {
 	return fmt.Sprintf("ok #reads=%d writes=%d", reads.Load(), writes.Load())
 }
 
-func httpwChild(args []string, in *bufio.Scanner, out *bufio.Writer) {
-	e := newHwEnv(len(args) > 0 && args[0] == "tmode")
+func httpwChild(_ []string, in *bufio.Scanner, out *bufio.Writer) {
+	e := newHwEnv(false)
 	for in.Scan() {
 		f := fields(in.Text())
 		if len(f) == 0 {
+			continue
+		}
+		if f[0] == "new" {
+			// a fresh handler, client and clock; the previous handler's context ends (its Watch goroutine returns) and
+			// whatever it left parked is cancelled
+			e.stop()
+			e = newHwEnv(len(f) > 1 && f[1] == "tmode")
+			fmt.Fprintln(out, "ok")
+			out.Flush()
 			continue
 		}
 		need := map[string]int{"clock": 2, "req": 3, "reqraw": 3, "cancel": 2, "reap": 2, "watch": 2, "setget": 3, "sethead": 2,
